@@ -8,6 +8,7 @@ Variable A : Type.
 Variable cost : A -> xnum.
 Variable copy : A -> A.
 Variable pool_perm : list A -> list A.
+Variable init_draw : nat -> A.
 
 Definition gen_sort_by_cost (population : (list A)) (task_type : dir) : (list A) :=
   let pop_new := population in
@@ -70,6 +71,16 @@ Definition gen_greedy_select_population (pop : (list A)) (new_population : (list
   let self__population_v6 := (pool_perm executors) in
   (Some self__population_v6) end.
 
+Definition gen_generate_agents (n_agents : nat) (mode : mode) : (list A) :=
+  if (mode_eqb mode SERIAL) then (map (fun i_ => (init_draw i_)) (seq 0 n_agents)) else
+  let executors := (map (fun i_ => (init_draw i_)) (seq 0 n_agents)) in
+  let pop := (pool_perm executors) in
+  pop.
+
+Definition gen_init_population (pop : (list A)) (population_size : nat) (mode : mode) : (list A) :=
+  let self__population_v1 := (gen_generate_agents population_size mode) in
+  self__population_v1.
+
 Definition gen_extend_and_trim_population (pop : (list A)) (new_population : (list A)) (population_size : nat) : (list A) :=
   if (Nat.eqb (length new_population) 0) then pop else
   let self__population_v1 := (pop ++ new_population) in
@@ -93,5 +104,7 @@ Definition gen_worst_agents_indexes_mutates_param : bool := false.
 Definition gen_special_agents_mutates_param : bool := false.
 Definition gen_greedy_select_agent_mutates_param : bool := false.
 Definition gen_greedy_select_population_mutates_param : bool := false.
+Definition gen_generate_agents_mutates_param : bool := false.
+Definition gen_init_population_mutates_param : bool := false.
 Definition gen_extend_and_trim_population_mutates_param : bool := false.
 Definition gen_replace_and_trim_population_mutates_param : bool := false.
